@@ -151,7 +151,10 @@ def run_hooks(ctx):
         o = f.origin
         if o is not None:
             weakref.ref(o)
-            fo = stackscope.extract_outermost(o)
+            try:
+                fo = stackscope.extract_outermost(o)
+            except Exception as e:
+                raise Violation("c16_origin_does_not_recover_frame", "hooks: frame %s has origin %s but extract_outermost(origin) raises %r" % (f.funcname, type(o).__name__, e), ctx.case)
             if fo.pyframe is not f.pyframe:
                 raise Violation("c16_origin_does_not_recover_frame", "hooks: frame %s has origin %s which recovers another frame" % (f.funcname, type(o).__name__), ctx.case)
         if g is not None:
